@@ -268,3 +268,156 @@ def inject_at(body, anchors, what=''):
         p = ms[0].start() if pos == 'before' else ms[0].end()
         body = body[:p] + ' ' + txt + ' ' + body[p:]
     return body
+
+
+# ---------------------------------------------------------------- textual loop-rule instrumentation
+# (used instead of goto-instrument's loop contracts where those are too slow / too restrictive; see DESIGN §3.2b)
+
+def loop_spans(body):
+    """For every for/while loop (in order of appearance) return a dict with the positions of the header's
+    condition and of the loop body.  do-while loops are reported with kind 'do'."""
+    res = []
+    skip_while_at = set()
+    i = 0
+    n = len(body)
+    while i < n:
+        s = _skip_noncode(body, i)
+        if s is not None:
+            i = s
+            continue
+        m = _kw.match(body, i)
+        if m and (i == 0 or not (body[i - 1].isalnum() or body[i - 1] == '_')):
+            kw = m.group(1)
+            if kw == 'while' and i in skip_while_at:
+                i = m.end()
+                continue
+            if kw in ('for', 'while'):
+                op = find_code_char(body, '(', m.end())
+                cp = find_matching(body, op)
+                if kw == 'while':
+                    cs, ce = op + 1, cp
+                else:
+                    s1 = find_code_char(body, ';', op + 1)
+                    # second semicolon at nesting depth 0 inside the header
+                    depth = 0
+                    s2 = -1
+                    k = s1 + 1
+                    while k < cp:
+                        sk = _skip_noncode(body, k)
+                        if sk is not None:
+                            k = sk
+                            continue
+                        if body[k] in '([{':
+                            depth += 1
+                        elif body[k] in ')]}':
+                            depth -= 1
+                        elif body[k] == ';' and depth == 0:
+                            s2 = k
+                            break
+                        k += 1
+                    if s1 < 0 or s2 < 0:
+                        raise ExtractionError('cannot parse for header')
+                    cs, ce = s1 + 1, s2
+                # body: next non-space char
+                k = cp + 1
+                while k < n and body[k].isspace():
+                    k += 1
+                if body[k] == '{':
+                    bs, be = k, find_matching(body, k) + 1
+                else:
+                    be = find_code_char(body, ';', k) + 1
+                    bs = k
+                res.append(dict(kind=kw, kw=i, cond=(cs, ce), body=(bs, be)))
+                i = m.end()
+                continue
+            else:
+                ob = find_code_char(body, '{', m.end())
+                cb = find_matching(body, ob)
+                mw = re.compile(r'\s*while\b').match(body, cb + 1)
+                if not mw:
+                    raise ExtractionError('do without while')
+                wstart = cb + 1 + (len(mw.group(0)) - len('while'))
+                skip_while_at.add(wstart)
+                op = find_code_char(body, '(', mw.end())
+                cp = find_matching(body, op)
+                res.append(dict(kind='do', kw=i, cond=(op + 1, cp), body=(ob, cb + 1)))
+                i = m.end()
+                continue
+        i += 1
+    res.sort(key=lambda d: d['kw'])
+    return res
+
+
+_ASSIGN_RE = re.compile(r'(?<![=!<>+\-*/%&|^])\b([A-Za-z_]\w*)((?:\s*(?:->|\.)\s*\w+|\s*\[[^\]]*\])*)\s*(?:[-+*/%&|^]|<<|>>)?=(?!=)')
+_INCDEC_RE = re.compile(r'(?:\+\+|--)\s*\(?\*?\s*([A-Za-z_]\w*)|([A-Za-z_]\w*)((?:\s*(?:->|\.)\s*\w+|\s*\[[^\]]*\])*)\s*(?:\+\+|--)')
+_DECL_RE = re.compile(r'\b(?:__auto_type|struct\s+\w+\s*\*?|unsigned\s+\w+|const\s+\w+\s*\*?|\w+_t\s*\*?|int|char\s*\*?|bool|void\s*\*|long|size_t)\s+\*?([A-Za-z_]\w*)\s*(?:=|;|\[)')
+_CALL_RE = re.compile(r'\b([A-Za-z_]\w*)\s*\(')
+_NOT_CALLS = {'if', 'while', 'for', 'switch', 'return', 'sizeof', '__CPROVER_assume', '__CPROVER_assert', 'PRE_STEP'}
+
+
+def loop_frame(body_text):
+    """Roots of the lvalues textually assigned in a loop body, the identifiers declared in it, and the functions
+    it calls."""
+    txt = strip_comments(body_text)
+    roots = set()
+    through = set()       # roots written through (p->f = .., p[i] = .., *p = ..)
+    for m in _ASSIGN_RE.finditer(txt):
+        roots.add(m.group(1))
+        if m.group(2).strip():
+            through.add(m.group(1))
+    for m in _INCDEC_RE.finditer(txt):
+        roots.add(m.group(1) or m.group(2))
+        if m.group(3) and m.group(3).strip():
+            through.add(m.group(2))
+    for m in re.finditer(r'\*\s*(?:--|\+\+)?\s*([A-Za-z_]\w*)\s*(?:[-+*/%&|^]|<<|>>)?=(?!=)', txt):
+        roots.add(m.group(1))
+        through.add(m.group(1))
+    decls = set(m.group(1) for m in _DECL_RE.finditer(txt))
+    calls = set(m.group(1) for m in _CALL_RE.finditer(txt)) - _NOT_CALLS
+    return roots, decls, calls, through
+
+
+def mark_loops(body, marks, what=''):
+    """marks: dict ordinal -> dict(name=..., frame=[roots that may be modified], effects={callee: [roots]},
+    pure=[callees without side effects]); optional key 'count'.
+    Rewrites the loop condition to `LOOPHEAD_<name> && (cond)` and checks the loop's textual frame."""
+    spans = loop_spans(body)
+    want = marks.get('count')
+    if want is not None and len(spans) != want:
+        raise ExtractionError('%s: found %d loops, spec expects %d' % (what, len(spans), want))
+    edits = []
+    for k, mk in marks.items():
+        if k == 'count':
+            continue
+        if k >= len(spans):
+            raise ExtractionError('%s: loop#%d not present' % (what, k))
+        sp = spans[k]
+        if sp['kind'] == 'do':
+            raise ExtractionError('%s: do-while loops are not supported by the loop-rule instrumentation' % what)
+        btxt = body[sp['body'][0]:sp['body'][1]]
+        ctxt = body[sp['cond'][0]:sp['cond'][1]]
+        hdr = body[sp['kw']:sp['body'][0]]
+        roots, decls, calls, through = loop_frame(btxt + ' ; ' + hdr[hdr.find('(') + 1:])
+        frame = set(mk.get('frame', []))
+        ptr_targets = mk.get('ptr_targets', {})
+        for r_ in sorted(through & decls):
+            if r_ not in ptr_targets:
+                raise ExtractionError('%s: loop#%d writes through local pointer %s; the spec does not say what it '
+                                      'may point to' % (what, k, r_))
+            roots |= set(ptr_targets[r_])
+        eff = mk.get('effects', {})
+        pure = set(mk.get('pure', []))
+        for c in calls:
+            if c in eff:
+                roots |= set(eff[c])
+            elif c not in pure:
+                raise ExtractionError('%s: loop#%d calls %s(), whose effects the spec does not declare' % (what, k, c))
+        extra = roots - decls - frame
+        if extra:
+            raise ExtractionError('%s: loop#%d assigns %s, not in the declared frame %s'
+                                  % (what, k, sorted(extra), sorted(frame)))
+        cond = ctxt.strip() or '1'
+        edits.append((sp['cond'][0], sp['cond'][1], ' LOOPHEAD_%s && (%s) ' % (mk['name'], cond)))
+    for s, e, t in sorted(edits, reverse=True):
+        body = body[:s] + t + body[e:]
+    return body
